@@ -123,6 +123,7 @@ func getStoreRoles(P *Program) (*storeRoles, []string) {
 	if sr.NewMem == nil || sr.NewRed == nil {
 		missing = append(missing, "store constructors")
 	}
+	P.MarkAnchor(sr.Expiry, sr.RefreshExp, sr.NewMem, sr.NewRed)
 	return sr, missing
 }
 
